@@ -46,7 +46,8 @@ def record_views(src, skip=()):
             al = list(n.expr.all)          # the property names expr.all as the complete content list
             co = list(n.contents)
             ch = list(n.children)
-            for view in (ch, [c for c in co if isinstance(c, TexNode)], [c for c in n if isinstance(c, TexNode)]):
+            indexed = [n[i] for i in range(len(co))] + ([n[-1]] if co else [])
+            for view in (ch, [c for c in co if isinstance(c, TexNode)], [c for c in n if isinstance(c, TexNode)], [c for c in indexed if isinstance(c, TexNode)]):
                 for c in view:
                     if c.parent is not n:
                         pok = False
